@@ -148,10 +148,8 @@ class C18(vlib.Driver):
         return ag, batch(case["rows1"]), batch(case["rowsn"])
 
     @staticmethod
-    def read_projection(ag, b, gamma, N, A, rev=False):
+    def read_projection(ag, b, gamma, N, A):
         """_dqn_loss with log_p = -onehot(k) returns column k of the projection: N calls read it off."""
-        if rev:
-            b = b.flip(0) if hasattr(b, "flip") else b[torch.arange(b.batch_size[0] - 1, -1, -1)]
         orig = ag.actor.forward
         cols = []
         try:
